@@ -5,11 +5,13 @@ EXPLANATION = """
 Claimed narrowly. Decides: (a) the JSON and the Arrow paths of the query response writer select rows through the same try_accept_row gate (shared with C03.e1/e2) and the row count announced by stream_end
 is the writer's `emitted` counter (query and SHOW response writers); (c) every Renderer::render implementation takes the status code it prints from response.status.code()
 (no constant substituted on the normal path).
-Noted, not armed: Arrow typed cell builders append null for non-matching scalar variants where the JSON encoder prints the value (needs a reachable mixed-variant column).
+(b) the two copies of the scalar-to-Arrow cell builders (shared/response/arrow.rs and engine/core/read/flow/batch.rs, one function per Arrow type) accept the same ScalarValue variants — a variant one copy
+converts and the other sends to append_null shows up as null in Arrow on one code path while JSON prints the value.
+Noted, not armed: the inline row-selection builders in build_record_batch accept fewer variants than the functions (no Utf8 parsing); a u64 above i64::MAX is kept as a string and becomes null in an Int64 Arrow column.
 Does NOT decide numeric equality of decoded cells, batch-size independence, or byte-level agreement of the three encodings.
 """
-FLOOR = 5
-REQUIRED = ["C20.a", "C20.c", "C20/C03.e1", "C20/C03.e2"]
+FLOOR = 6
+REQUIRED = ["C20.a", "C20.b", "C20.c", "C20/C03.e1", "C20/C03.e2"]
 
 
 def run(ctx):
@@ -52,6 +54,35 @@ def run(ctx):
         return bad
     ctx.run("C20.a", "K7 PROV", "response writers: stream_end", "the announced row count is the number of rows emitted", a)
 
+    def b_(inst):
+        bad = []
+
+        def explicit(key):
+            b = F.fn_exact(key)
+            out = None
+            for i in sorted(b.live_blocks()):
+                if b.blocks[i]["t"]["t"] == "switch":
+                    si = b.switch_info(i)
+                    if si and si["kind"] == "enum" and (si.get("adt") or "").endswith("types::ScalarValue"):
+                        out = {k for k in si["edges"] if k != "else"}
+                        break
+            if out is None:
+                raise AnchorMissing("match on ScalarValue in %s" % key)
+            return out
+        n = 0
+        for ty in ("int64", "float64", "bool", "timestamp", "string"):
+            a = "shared::response::arrow::build_%s_array_from_scalars" % ty
+            c_ = "engine::core::read::flow::batch::build_%s_array_from_scalars" % ty
+            if not F.has(a) or not F.has(c_):
+                raise AnchorMissing("cell builder pair for %s" % ty)
+            ea, ec = explicit(a), explicit(c_)
+            n += 1
+            inst.sites.append("%s: arrow.rs %s | batch.rs %s" % (ty, sorted(ea), sorted(ec)))
+            if ea != ec:
+                bad.append(("cell-builder-disagree:%s" % ty, "the %s cell builders disagree on the scalar variants they convert: arrow.rs %s vs batch.rs %s — the variants in the difference become null on one path" % (ty, sorted(ea), sorted(ec)), None))
+        return bad
+    ctx.run("C20.b", "K11 SIB", "scalar-to-Arrow cell builders (two copies)", "both Arrow encoding paths convert the same scalar variants", b_)
+
     def c(inst):
         bad = []
         for ty in ("JsonRenderer", "UnixRenderer", "ArrowRenderer"):
@@ -69,4 +100,4 @@ def run(ctx):
         return bad
     ctx.run("C20.c", "K11 SIB", "Renderer::render implementations", "every encoding prints the response's own status code", c)
 
-    ctx.note("arrow.rs typed cell builders send non-matching ScalarValue variants to append_null while JSON prints them; not armed (reachable mixed-variant column not demonstrated)")
+    ctx.note("build_record_batch's inline row-selection builders accept fewer variants than the builder functions; u64 > i64::MAX is kept as Utf8 and becomes null in an Int64 column (reproduced, value level, not armed)")
